@@ -39,3 +39,65 @@ Qed.
 (* for Properties_C05.v *)
 Lemma ex_prog_op_wf : Forall op_wf ex_prog /\ arena_spec_wf (ArRaw [32; 8]).
 Proof. split; [repeat constructor; cbn; lia|repeat constructor; lia]. Qed.
+
+(* ------------------------------------------------------------------ text / data read-back *)
+Lemma firstn_app_zeros (v : list Z) k n : (length v <= n)%nat -> (n <= length v + k)%nat ->
+  firstn n (v ++ repeat 0 k) = v ++ repeat 0 (n - length v).
+Proof.
+  intros H1 H2. rewrite firstn_app. rewrite firstn_all2 by lia. f_equal.
+  assert (E : forall a b, (a <= b)%nat -> firstn a (repeat 0 b) = repeat 0 a).
+  { induction a as [|a IH]; intros [|b] Hab; cbn; auto; try lia. f_equal. apply IH. lia. }
+  apply E. lia.
+Qed.
+
+(* [new_bytes_read_back]: NewData(v) / NewTextFromBytes(v) and Ptr.Data() / Ptr.Text() on the
+   bytes of the new message: the data that was written (with the terminating NUL for a text) *)
+Theorem new_bytes_read_back m sid v nul m' p :
+  inv m -> 0 <= sid < nsegs m -> zlen v < 536870911 ->
+  newBytes m sid v nul = Ok (m', p) ->
+  ptr_data (bm_data m') p = Ok (Some (if nul then v ++ [0] else v)) /\
+  (nul = true -> ptr_text (bm_data m') p = Ok (Some v)).
+Proof.
+  intros [Hwf Har] Hs Hv. pose proof (zlen_nonneg v) as Zv.
+  set (n := s32 (zlen v + (if nul then 1 else 0))).
+  assert (En : n = zlen v + (if nul then 1 else 0)) by (unfold n; apply s32_id; destruct nul; lia).
+  unfold newBytes. fold n. unfold newPrimitiveList.
+  destruct ((n <? 0) || (n >=? 536870912)) eqn:EN; [discriminate|].
+  destruct (alloc m sid _) as [[[m1 s1] a]| |] eqn:EA; cbn [bind]; try discriminate. cbn [p_seg p_off].
+  destruct (seg_write m1 s1 a v) as [m2| |] eqn:EW; cbn [bind]; try discriminate.
+  intros E. apply Ok_inj in E. assert (m2 = m') by congruence. subst m2.
+  assert (Ep : p = mkPtr true s1 a n (mkOS 1 0) maxDepth KList false false false) by congruence. subst p.
+  assert (Hn0 : zlen v <= n <= zlen v + 1) by (rewrite En; destruct nul; lia).
+  clearbody n.
+  assert (TU : timesUnchecked 1 n = n) by (unfold timesUnchecked, u32; lia).
+  rewrite TU in EA.
+  assert (Hn00 : 0 <= n) by lia.
+  pose proof (alloc_fresh _ _ _ _ _ _ Hwf Har Hs Hn00 EA) as AF. cbv zeta in AF.
+  destruct AF as (A1 & A2 & _ & _ & A5 & A6 & A7 & _ & A9 & _). unfold maxSegmentSize, blen in *.
+  apply seg_write_wrote in EW; [|lia|lia].
+  destruct EW as (_ & _ & W3 & _).
+  assert (M1 : mem m1 s1 = mem m s1 ++ repeat 0 (Z.to_nat (padToWord n))) by exact A6.
+  assert (Ea : a = zlen (mem m s1)) by exact A2.
+  assert (M' : mem m' s1 = mem m s1 ++ write_bytes (repeat 0 (Z.to_nat (padToWord n))) 0 v).
+  { rewrite W3, M1. rewrite Ea. rewrite <- (write_bytes_app_right (mem m s1) _ 0 v) by lia. f_equal. lia. }
+  assert (WB : write_bytes (repeat 0 (Z.to_nat (padToWord n))) 0 v = v ++ repeat 0 (Z.to_nat (padToWord n) - length v)).
+  { unfold write_bytes. cbn [Z.to_nat firstn app Nat.add]. f_equal.
+    assert (Esk : forall k b, skipn k (repeat 0 b) = repeat 0 (b - k)) by (induction k; intros [|b]; cbn; auto).
+    apply Esk. }
+  rewrite WB in M'.
+  assert (SL : slice (mem m' s1) a n = Ok (v ++ repeat 0 (Z.to_nat n - length v))).
+  { assert (PN : n <= padToWord n <= 4294967288) by (unfold padToWord, u32; lia).
+    assert (ZL : zlen (mem m' s1) = zlen (mem m s1) + padToWord n).
+    { rewrite M', !zlen_app. unfold zlen. rewrite repeat_length. unfold zlen in *. lia. }
+    pose proof (zlen_nonneg (mem m s1)) as Z0. change (bs_data (get_seg m1 s1)) with (mem m1 s1) in A7, A9.
+    rewrite slice_ok by lia.
+    f_equal. unfold sub. rewrite M', Ea. unfold zlen. rewrite Nat2Z.id. rewrite skipn_app, skipn_all2 by lia.
+    rewrite Nat.sub_diag. cbn [skipn app]. apply firstn_app_zeros; unfold zlen in *; lia. }
+  assert (IB : isOneByteList (mkPtr true s1 a n (mkOS 1 0) maxDepth KList false false false) = true) by reflexivity.
+  assert (U : u32 n = n) by (unfold u32; lia).
+  unfold ptr_data, ptr_text. rewrite IB. cbn [negb]. unfold seg_of. cbn [p_seg p_off p_len]. rewrite nth_bm_data, U, SL. cbn [bind].
+  assert (Ln : (Z.to_nat n - length v = if nul then 1 else 0)%nat) by (unfold zlen in *; destruct nul; lia).
+  rewrite Ln. split.
+  - destruct nul; [reflexivity|]. cbn [repeat]. now rewrite app_nil_r.
+  - intros ->. cbn [repeat]. rewrite rev_app_distr. cbn [rev app]. change (0 =? 0) with true. cbv iota. now rewrite rev_involutive.
+Qed.
